@@ -40,7 +40,7 @@ For each change i in ({idx}) deliver a directory /tmp/seedout_{pid}_i/ containin
   demo.py      - a self-contained program using only the public API of barril (+ numpy/stdlib) that checks the property on the specific inputs that expose the change, comparing against independently computed expectations (not against recorded outputs of the library); it must exit 0 on the unchanged library and exit 1 (printing what went wrong) with your change applied. Run it both ways to confirm.
   meta.json    - {{"summary": what the change does and why the property breaks, "what_it_needs_to_manifest": the specific input/sequence needed, "files_touched": [...]}}
 
-Reset the worktree between the changes (git -C {wt} checkout -- .). When done, remove the worktree: git -C /repo worktree remove --force {wt}. Your final message: for each change two or three lines (what, where, how it manifests) and confirmation that demo.py exits 0 without / 1 with the patch and that 322 tests pass with the patch.
+Reset the worktree between the changes (git -C {wt} checkout -- .). Never use `git stash` (the stash is shared by all worktrees of /repo and other agents work in parallel): to put a change aside use `git diff > /tmp/mychange.diff; git checkout -- .` and later `git apply /tmp/mychange.diff`. When done, remove the worktree: git -C /repo worktree remove --force {wt}. Your final message: for each change two or three lines (what, where, how it manifests) and confirmation that demo.py exits 0 without / 1 with the patch and that 322 tests pass with the patch.
 """
 out = "/tmp/seedbrief_%s.md" % pid
 open(out, "w").write(text)
